@@ -40,7 +40,34 @@ extern "C" void __asan_unpoison_memory_region(void const volatile *addr, size_t 
 #  define SIM_UNPOISON(p, n) ((void) 0)
 #endif
 
+#ifdef SIM_TSAN
+extern "C" {
+void AnnotateIgnoreReadsBegin(const char *f, int l);
+void AnnotateIgnoreReadsEnd(const char *f, int l);
+void AnnotateIgnoreWritesBegin(const char *f, int l);
+void AnnotateIgnoreWritesEnd(const char *f, int l);
+void __tsan_acquire(void *addr);
+void __tsan_release(void *addr);
+}
+#  define SIM_TSAN_ACQUIRE(p) __tsan_acquire((void*) (p))
+#  define SIM_TSAN_RELEASE(p) __tsan_release((void*) (p))
+#  define SIM_MO_STORE std::memory_order_relaxed
+#  define SIM_MO_LOAD std::memory_order_relaxed
+#else
+#  define SIM_TSAN_ACQUIRE(p) ((void) 0)
+#  define SIM_TSAN_RELEASE(p) ((void) 0)
+#  define SIM_MO_STORE std::memory_order_release
+#  define SIM_MO_LOAD std::memory_order_acquire
+#endif
+
 namespace sim {
+
+struct IgnoreGuard {
+#ifdef SIM_TSAN
+    IgnoreGuard() { AnnotateIgnoreReadsBegin(__FILE__, __LINE__); AnnotateIgnoreWritesBegin(__FILE__, __LINE__); }
+    ~IgnoreGuard() { AnnotateIgnoreWritesEnd(__FILE__, __LINE__); AnnotateIgnoreReadsEnd(__FILE__, __LINE__); }
+#endif
+};
 
 enum { ARENA_SLOT = 64, ARENA_SLOTS = 1 << 15, ARENA_MAX = 12 };
 
@@ -72,6 +99,7 @@ struct Arena {
         used_hi += chunk;
     }
     void* alloc() {
+        IgnoreGuard ig;
         if (order_pos >= order.size()) {
             if (used_hi + chunk > ARENA_SLOTS) { exhausted++; return nullptr; }
             next_chunk();
@@ -83,6 +111,7 @@ struct Arena {
         return p;
     }
     void release(void *p) {
+        IgnoreGuard ig;
         size_t slot = ((char*) p - base) / ARENA_SLOT;
         state[slot] = 2;
         memset(p, 0xDD, ARENA_SLOT);
@@ -186,6 +215,28 @@ thread_local int tl_layout_depth = 0;
 thread_local bool tl_size_probe = false;
 thread_local size_t tl_probe_max = 0;
 }
+#ifdef SIM_TSAN
+// The TSan runtime defines operator new/delete itself (whole-archive); interpose at link time
+// instead: -Wl,--wrap=_Znwm,... routes the references of this translation unit here.
+extern "C" {
+void* __real__Znwm(size_t); void* __real__Znam(size_t);
+void __real__ZdlPv(void*); void __real__ZdaPv(void*); void __real__ZdlPvm(void*, size_t); void __real__ZdaPvm(void*, size_t);
+static inline void* sim_tsan_new(size_t size, bool arr) {
+    if (sim::tl_size_probe && size > sim::tl_probe_max) sim::tl_probe_max = size;
+    if (sim::tl_layout_depth > 0 && sim::tl_arena) {
+        sim::ArenaGlobals &g = sim::arena_globals();
+        for (int k = 0; k < g.n_sizes; k++) if (g.node_sizes[k] == size) { void *p = sim::tl_arena->alloc(); if (p) return p; break; }
+    }
+    return arr ? __real__Znam(size) : __real__Znwm(size);
+}
+void* __wrap__Znwm(size_t size) { return sim_tsan_new(size, false); }
+void* __wrap__Znam(size_t size) { return sim_tsan_new(size, true); }
+void __wrap__ZdlPv(void *p) { if (p && sim::arena_owns(p)) sim::arena_of(p)->release(p); else __real__ZdlPv(p); }
+void __wrap__ZdaPv(void *p) { if (p && sim::arena_owns(p)) sim::arena_of(p)->release(p); else __real__ZdaPv(p); }
+void __wrap__ZdlPvm(void *p, size_t n) { if (p && sim::arena_owns(p)) sim::arena_of(p)->release(p); else __real__ZdlPvm(p, n); }
+void __wrap__ZdaPvm(void *p, size_t n) { if (p && sim::arena_owns(p)) sim::arena_of(p)->release(p); else __real__ZdaPvm(p, n); }
+}
+#else
 void* operator new(size_t size) { return sim::arena_new(size); }
 void* operator new[](size_t size) { return sim::arena_new(size); }
 void* operator new(size_t size, const std::nothrow_t&) noexcept { try { return sim::arena_new(size); } catch (...) { return nullptr; } }
@@ -196,4 +247,5 @@ void operator delete(void *p, size_t) noexcept { sim::arena_delete(p); }
 void operator delete[](void *p, size_t) noexcept { sim::arena_delete(p); }
 void operator delete(void *p, const std::nothrow_t&) noexcept { sim::arena_delete(p); }
 void operator delete[](void *p, const std::nothrow_t&) noexcept { sim::arena_delete(p); }
+#endif
 #endif
